@@ -23,6 +23,9 @@ def gen(rng, tier):
         o = progs.Opts(open_leaves=0.5 if rng.random() < 0.3 else 0.0, control=False, cut=False, builtins=False, deep=rng.random() < 0.1)
         p = progs.gen_program(rng, o)
         cases.append({'clauses': p['clauses'], 'queries': p['queries']})
+    for _ in range(n // 4):
+        p = progs.gen_alias_program(rng)
+        cases.append({'clauses': p['clauses'], 'queries': p['queries']})
     return cases
 
 def builtin_corpus():
